@@ -247,6 +247,14 @@ theorem getElem?_setNones (u : List (Option α)) (picks : List Nat) (j : Nat) :
       rw [List.getElem?_set_ne this]
       simp [hjp]
 
+theorem setNones_length (u : List (Option α)) (picks : List Nat) :
+    (setNones u picks).length = u.length := by
+  induction picks generalizing u with
+  | nil => simp [setNones]
+  | cons p ps ih =>
+    have e : setNones u (p :: ps) = setNones (u.set p none) ps := by simp [setNones]
+    rw [e, ih]; simp
+
 /-- Consequences of the step contract, for any batch (used for `simple_batch` here and for every
 strategy's utilities in C02): distinct picks, every pick a non-NaN entry of the *original* vector,
 row `k` = original vector with picks `0..k-1` set to NaN, picks in non-increasing utility order. -/
